@@ -109,8 +109,13 @@ int ops_fileset(char **args, int na)
 		char path[700]; fs_path(path, sizeof path, args[1]); unlink(path); puts("ok"); return 0;
 	}
 	if (!strcmp(op, "fs.set")) {
-		/* rewrite the setfile in place (same inode) and give it a strictly larger mtime */
-		FILE *f = fopen(setfile, "w"); if (!f) return -1;
+		/* rewrite the setfile and make sure its (inode, mtime) identity changes, in every way an edit can change it:
+		 * in place with a NEWER mtime, in place with an OLDER mtime (cp -p, rsync -t, a restore from backup), or replaced
+		 * by rename (new inode) with the SAME mtime as before */
+		static long last_mt = 1000000;
+		int how = set_version % 4;              /* 0,1: newer; 2: older; 3: rename, same mtime */
+		char tmp[800]; snprintf(tmp, sizeof tmp, "%s.new", setfile);
+		FILE *f = fopen(how == 3 ? tmp : setfile, "w"); if (!f) return -1;
 		/* every third version of the setfile ends WITHOUT a final newline (a text file's last line need not have one) */
 		for (int i = 1; i < na; i++) {
 			const char *nl = (i == na - 1 && set_version % 3 == 1) ? "" : "\n";
@@ -120,8 +125,11 @@ int ops_fileset(char **args, int na)
 		}
 		fclose(f);
 		set_version++;
-		struct timespec ts[2] = { { 1000000 + set_version, 0 }, { 1000000 + set_version, 0 } };
-		utimensat(AT_FDCWD, setfile, ts, 0);
+		long mt = how == 3 ? last_mt : how == 2 ? 900000 - set_version : 1000000 + set_version;
+		struct timespec ts[2] = { { mt, 0 }, { mt, 0 } };
+		utimensat(AT_FDCWD, how == 3 ? tmp : setfile, ts, 0);
+		if (how == 3 && rename(tmp, setfile) != 0) return -1;
+		last_mt = mt;
 		puts("ok"); return 0;
 	}
 	if (!strcmp(op, "fs.tick") && na == 2) { vf_clock_now.tv_sec += strtol(args[1], NULL, 10); puts("ok"); return 0; }
